@@ -81,6 +81,21 @@ def nest_skeletons(depth):
     return ['int f(int x,int y,int n){ int i0; int i1; int i2; %s }' % b for b in out]
 
 
+def for_headers():
+    """every combination of an init, a condition and a step clause from small lists (bounded-exhaustive): which
+    `for` statements count as loops is decided by the header alone"""
+    inits = ['', 'i = 0', 'x = 0', 'i = 0, j = n', 'i = x', 'i = n']
+    conds = ['i < n', 'i < j', '', 'x < n', 'i < n && x < y', 'i < 10', 'n > i']
+    steps = ['i++', '++i', 'i--', 'i = i + 1', 'i += 1', '', 'i++, j--', 'x++', 'x = x * x']
+    out = []
+    for a in inits:
+        for b in conds:
+            for c in steps:
+                out.append('int f(int x,int y,int n,int i,int j){ for (%s; %s; %s) { y = y + 1; } while (y < 2) { for (%s; %s; %s) y = y + x; } }'
+                           % (a, b, c, a, b, c))
+    return out
+
+
 def run(ctx):
     from pymwp import FindLoops, LoopAnalysis, Analysis, Variables, Result, Parser as pr
     from pymwp.file_io import loc
@@ -92,6 +107,8 @@ def run(ctx):
     else:
         files += sk[:272] + sk[272::3]       # depth <= 2 in full, every third skeleton of depth 3
     ctx.extra['nest_skeletons'] = len(files) - len(EXTRA)
+    hd = for_headers()
+    files += hd if ctx.tier == 'thorough' else hd[::3]
     for i in range(ctx.budget(60, 2000)):
         parts = []
         for k in range(rng.choice([1, 1, 2, 3])):
